@@ -141,8 +141,8 @@ pub fn gen_api_plan(prop: Prop, seed: u64, tier: Tier, index: u64, batch_seed: u
     // fault (cause, point) and the schedule differ.
     let points: u64 = if prop == Prop::C15 {
         match tier {
-            Tier::Quick => 16,
-            Tier::Thorough => 112,
+            Tier::Quick => 18,
+            Tier::Thorough => 126,
         }
     } else {
         1
@@ -215,7 +215,7 @@ pub fn gen_api_plan(prop: Prop, seed: u64, tier: Tier, index: u64, batch_seed: u
 
     let fault = if prop == Prop::C15 {
         let mut frng = Rng::new(crate::rng::run_seed(seed ^ 0xfa, index));
-        let kind = ["error", "eof", "send_error", "shutdown", "drop_handles", "broker_shutdown", "shutdown_conn", "broker_shutdown+send_error"][variant as usize % 8];
+        let kind = ["error", "eof", "send_error", "shutdown", "drop_handles", "broker_shutdown", "shutdown_conn", "broker_shutdown+send_error", "broker_shutdown+shutdown"][variant as usize % 9];
         json!({"client": frng.below(n_clients), "kind": kind, "frac": frng.below(1001)})
     } else {
         json!({"kind": "none"})
